@@ -451,6 +451,8 @@ class Unit:
                     text = tr.function_text(f, contract="\n".join(ct) + "\n", loopann=ann)
                 ens_lines[n] = (lines, ct)
                 fn_texts.append((n, text))
+            elif n in tr.opts.get("stub_bodies", ()):
+                pass   # defined by self.stubs
             else:
                 text = tr.function_text(f, static=False)
                 fn_texts.append((n, text))
